@@ -42,3 +42,34 @@ claim("C20",
       "(total_seconds = correctly rounded us/1e6; fromtimestamp = modf, *1e6, round-half-even); strings len <= 2",
       "CrossHair symbolic execution (z3) of the real to_dict/from_dict/to_json_dict/from_json_dict pairs + z3 FP/real queries generated from TimestampConverter's AST",
       "DESIGN.md §3 C20")
+claim("C13",
+      "Bounded symbolic execution of the real wait_for_condition executor from an ARBITRARY reachable record (6 situations x any attempt x payload options x 3 "
+      "serializers x strategy decision/delay) with states carrying a symbolic int: first poll gets the initial state, later polls exactly the previous state "
+      "(type-exact, restored by the configured serdes), poll number = attempt+1, stop => synchronous SUCCEED + return, continue => synchronous RETRY with "
+      "delay max(d,1) + timed suspension, terminal/PENDING never polled; two polls chained through the backend contract; real create_wait_strategy kernel.",
+      "backend contract, FakeState, json model, stub clock (evidence assumptions); custom serializers rendering a state as '' are outside the claim",
+      "CrossHair symbolic execution (z3) of real WaitForConditionOperationExecutor over arbitrary records, chained polls",
+      "DESIGN.md §3 C13")
+claim("C14",
+      "Bounded symbolic execution of real CallbackOperationExecutor, Callback.result and InvokeOperationExecutor over absent/every-status records with symbolic "
+      "ids, payloads, timeouts, tenant: create returns the backend-issued id in every invocation and never raises on outcome; absent => exactly one synchronous "
+      "START with the configured options; result()/invoke suspend while outstanding, then return the delivered payload / deserialized result or raise the "
+      "recorded error. All paths exhausted.",
+      "backend contract (callback id in the START response; invoke START may return an already-terminal record), FakeState, json model; strings len <= 3",
+      "CrossHair symbolic execution (z3) of the real callback/invoke executors over arbitrary records",
+      "DESIGN.md §3 C14")
+claim("C04",
+      "Inductive lemma, all paths exhausted: for EVERY record an invocation can find for an at-most-once step (absent/STARTED/PENDING/READY x any attempt x "
+      "details present/absent) and every strategy decision, the real executor never enters the function on STARTED (routes through the strategy with attempt+1) "
+      "and enters it only after a synchronous START of this run left the record STARTED; plus a two-invocation crash/replay chain and a lemma that an "
+      "unreflected START blocks entry. A crash anywhere between 'start recorded' and 'outcome recorded' leaves exactly such a record.",
+      "backend contract (START keeps the attempt count; PENDING->READY by timer), FakeState; composition over invocations is an induction argument",
+      "CrossHair symbolic execution (z3) of real StepOperationExecutor with AT_MOST_ONCE_PER_RETRY over arbitrary records",
+      "DESIGN.md §3 C04")
+claim("C11",
+      "For every handler kind and EVERY reachable record (the history any sequence of earlier invocations/crashes can leave), the updates emitted by one real "
+      "process() are accepted by the lifecycle automaton started in that record's state (one START per attempt, START before RETRY/SUCCEED/FAIL, nothing "
+      "after/for terminal) and are well-formed (type, sub-type, id, parent link, name); a context's START precedes its body. All paths exhausted.",
+      "the automaton is the specification; FIFO delivery is C05; the execution-level result record is covered by C18/C16; user code deterministic",
+      "CrossHair symbolic execution (z3) of all real operation executors against a lifecycle automaton oracle",
+      "DESIGN.md §3 C11")
